@@ -1058,7 +1058,7 @@ def var(x, weight=None, ddof=0, axis=None, keepdims=False, mask_identity=True):
     """
     with np.errstate(invalid="ignore"):
         xmean = mean(
-            x, weight=weight, axis=axis, keepdims=keepdims, mask_identity=mask_identity
+            x, weight=weight, axis=axis, keepdims=True, mask_identity=mask_identity
         )
         if weight is None:
             sumw = count(x, axis=axis, keepdims=keepdims, mask_identity=mask_identity)
@@ -1185,10 +1185,10 @@ def covar(x, y, weight=None, axis=None, keepdims=False, mask_identity=True):
     """
     with np.errstate(invalid="ignore"):
         xmean = mean(
-            x, weight=weight, axis=axis, keepdims=keepdims, mask_identity=mask_identity
+            x, weight=weight, axis=axis, keepdims=True, mask_identity=mask_identity
         )
         ymean = mean(
-            y, weight=weight, axis=axis, keepdims=keepdims, mask_identity=mask_identity
+            y, weight=weight, axis=axis, keepdims=True, mask_identity=mask_identity
         )
         if weight is None:
             sumw = count(x, axis=axis, keepdims=keepdims, mask_identity=mask_identity)
@@ -1256,10 +1256,10 @@ def corr(x, y, weight=None, axis=None, keepdims=False, mask_identity=True):
     """
     with np.errstate(invalid="ignore"):
         xmean = mean(
-            x, weight=weight, axis=axis, keepdims=keepdims, mask_identity=mask_identity
+            x, weight=weight, axis=axis, keepdims=True, mask_identity=mask_identity
         )
         ymean = mean(
-            y, weight=weight, axis=axis, keepdims=keepdims, mask_identity=mask_identity
+            y, weight=weight, axis=axis, keepdims=True, mask_identity=mask_identity
         )
         xdiff = x - xmean
         ydiff = y - ymean
@@ -1531,7 +1531,7 @@ def softmax(x, axis=None, keepdims=False, mask_identity=False):
     with np.errstate(invalid="ignore"):
         nplike = ak.nplike.of(x)
         expx = nplike.exp(x)
-        denom = sum(expx, axis=axis, keepdims=keepdims, mask_identity=mask_identity)
+        denom = sum(expx, axis=axis, keepdims=True, mask_identity=mask_identity)
         return nplike.true_divide(expx, denom)
 
 
